@@ -155,7 +155,8 @@ pub fn eval_variable(
     query: &mut expr::EvalVariableQuery)
     -> Result<expr::Value, ()>
 {
-    if query.hierarchy_level == 0
+    if query.hierarchy_level == 0 &&
+        query.hierarchy.len() == 1
     {
         let maybe_builtin = eval_builtin_symbol(
             decls,
@@ -216,7 +217,8 @@ pub fn eval_variable_simple(
     query: &mut expr::EvalVariableQuery)
     -> Result<expr::Value, ()>
 {
-    if query.hierarchy_level == 0
+    if query.hierarchy_level == 0 &&
+        query.hierarchy.len() == 1
     {
         match query.hierarchy[0].as_ref()
         {
@@ -255,7 +257,8 @@ pub fn eval_variable_certain(
     query: &mut expr::EvalVariableQuery)
     -> Result<expr::Value, ()>
 {
-    if query.hierarchy_level == 0
+    if query.hierarchy_level == 0 &&
+        query.hierarchy.len() == 1
     {
         match query.hierarchy[0].as_ref()
         {
